@@ -20,12 +20,24 @@
      durable one;
    * `C06_last_durable` — "last durable" unfolded: the last element, in log order, among the durable records of the key;
    * `C06_durable_is_written` — that record is a record of the uncrashed log.
-  Partial: the refusal clause (a partial record at the end of a data file may make the store refuse to start) is
-  judged by the oracle only — the model has no refusal; hint and tree files are abstracted to "recovery equals
-  replay", which is exactly what the correspondence checks (and what failed before /repo commit fe79633).
+  THROUGH THE INDEX FILES (GoBeans/Model/CrashHint.lean, on top of Model/HintIndex.lean): memory and disk of a bucket —
+  per data file its records, the bytes on disk, the hint buffers and the `*.idx.s` files already renamed into place
+  (each with the `datasize` and the items it was dumped with, possibly describing records that never reached the data
+  file), the tree dump on disk, the close phase — and the operations that produce these states (write, flush to ANY
+  byte position, split rotation, dump of any closed split in any order relative to the flush, the steps of close,
+  restart); `recover` is `Bucket.open` built from the hint-index definitions, with the "hint beyond data" drop of
+  fe79633 as a switch.  For every history and every kill point (`C06_recovery_through_index_files`): if no data file
+  ends in a torn record the start comes up and every key's tree entry is, in its live part, `itemOfLast` of the key's
+  LAST DURABLE record (exactly that when no tree dump is used), and it points at a complete record of that key inside
+  the surviving bytes (`C06_recovered_entry_reads`); a torn tail makes the start refuse and nothing else does
+  (`C06_torn_tail_refuses`); with the drop of fe79633 switched off the statement is false — the historical defect as a
+  theorem (`C06_historical_code_fails`).
+  Partial: a kill DURING a start is not a step of the model; check_vhash off; GC, merged hint, collision table out of
+  scope (C07, C13).
   Colliding key hashes: C13.
 -/
 import GoBeans.Lemmas.Crash
+import GoBeans.Lemmas.CrashHint
 open Store Spec StoreLemmas
 
 theorem C06_reachable_good (hash : Key → Nat) (K : Key → Prop) (cfg : Store.Cfg) (R : Nat) (ops : List Op)
@@ -68,3 +80,40 @@ example : (Store.step exHash {} (exB.recover exHash {} (fun _ => 300) (fun i => 
 example : (Store.step exHash {} (exB.recover exHash {} (fun _ => 512) (fun i => i == 0)) (.get [1])).2.1 = .value 0 [11] := by decide +kernel
 example : (Store.step exHash {} (exB.recover exHash {} (fun _ => 512) (fun i => i == 0)) (.get [2, 2])).2.1 = .miss := by decide +kernel
 example : exB.tornAt (fun _ => 300) = true ∧ exB.tornAt (fun _ => 512) = false := by decide +kernel
+
+
+/-! recovery through hint files and tree dump -/
+section ThroughIndexFiles
+open HintIndex CrashHint CrashHintLemmas
+
+/-- kill at ANY instant of ANY history (data flush, split dumps and tree dump in any order the code allows): without a
+    torn tail the start comes up and serves, for every key, its last durable record -/
+theorem C06_recovery_through_index_files (hash : Key → Nat) (K : Key → Prop) (cap : Nat) (hInj : InjOn hash K) (hcap : 1 ≤ cap)
+    (cfg : Store.Cfg) (ops : List CrashHint.Op) (hops : ∀ op ∈ ops, CrashHintLemmas.OpOK K op)
+    (ht : (CrashHint.run hash cfg cap {} ops).torn = false) :
+    ∃ st, CrashHint.recover hash cap true (CrashHint.run hash cfg cap {} ops).crash = some st ∧
+      ∀ k, K k →
+        live (AMap.get st.tree (hash k)) = itemOfLast (lastOf k (durLog (CrashHint.run hash cfg cap {} ops))) ∧
+        (usedDump (CrashHint.run hash cfg cap {} ops).crash = none →
+          AMap.get st.tree (hash k) = itemOfLast (lastOf k (durLog (CrashHint.run hash cfg cap {} ops)))) :=
+  crash_recovery hash K cap hInj hcap cfg ops hops ht
+
+theorem C06_torn_tail_refuses (hash : Key → Nat) (cap : Nat) (chk : Bool) (s : CrashHint.St) (ht : s.torn = true) :
+    CrashHint.recover hash cap chk s.crash = none :=
+  torn_refuses hash cap chk s ht
+
+theorem C06_recovered_entry_reads (hash : Key → Nat) (K : Key → Prop) (cap : Nat) {s : CrashHint.St}
+    (inv : CrashHintLemmas.Inv hash K cap s) (k : Key) (it : TItem)
+    (h : itemOfLast (lastOf k (durLog s)) = some it) :
+    ∃ r, s.crash.readAt it.pos = some r ∧ r.key = k ∧ r.ver = it.ver ∧ 0 < it.ver ∧ it.vhash = vhashOf r.body ∧
+      (it.pos, r) ∈ durLog s :=
+  recovered_entry_reads hash K cap inv k it h
+
+/-- without the "hint beyond data" drop (the code before /repo fe79633) the statement is false -/
+theorem C06_historical_code_fails :
+    ¬ (∀ (ops : List CrashHint.Op), (∀ op ∈ ops, CrashHintLemmas.OpOK HintIndexLemmas.exK op) → (CrashHint.run HintIndexLemmas.exHash {} 2 {} ops).torn = false →
+        ∃ st, CrashHint.recover HintIndexLemmas.exHash 2 false (CrashHint.run HintIndexLemmas.exHash {} 2 {} ops).crash = some st ∧
+          ∀ k, HintIndexLemmas.exK k → live (AMap.get st.tree (HintIndexLemmas.exHash k)) = itemOfLast (lastOf k (durLog (CrashHint.run HintIndexLemmas.exHash {} 2 {} ops)))) :=
+  old_code_fails
+
+end ThroughIndexFiles
